@@ -84,17 +84,31 @@ func (t *ParsedTable) ToMarkdown() string {
 
 	var result string
 
+	// The header line decides the number of columns: cells of later rows
+	// beyond it would not belong to the table any more. Rows differ in length
+	// when cells span columns or rows, so the header is as long as the
+	// longest row.
+	numCols := 0
+	for _, row := range t.Rows {
+		if len(row) > numCols {
+			numCols = len(row)
+		}
+	}
+
 	// First row (header or first data row)
 	firstRow := t.Rows[0]
 	result += "|"
 	for _, cell := range firstRow {
 		result += " " + escapeMarkdown(cell.Text) + " |"
 	}
+	for i := len(firstRow); i < numCols; i++ {
+		result += "  |"
+	}
 	result += "\n"
 
 	// Separator
 	result += "|"
-	for range firstRow {
+	for i := 0; i < numCols; i++ {
 		result += " --- |"
 	}
 	result += "\n"
